@@ -32,6 +32,7 @@ def generate_edits_from_text(original_text: str, modified_text: str) -> List[Doc
     edits = []
     current_original_index = 0
     pending_delete = None  # Tuple(index, text)
+    last_edit_end = 0  # end (in original coordinates) of the last emitted edit's target
 
     for i, (op, text) in enumerate(diffs):
         if op == 0:  # Equal
@@ -41,6 +42,7 @@ def generate_edits_from_text(original_text: str, modified_text: str) -> List[Doc
                 edit = DocumentEdit(target_text=del_txt, new_text="", comment="Diff: Text deleted")
                 edit._match_start_index = idx
                 edits.append(edit)
+                last_edit_end = idx + len(del_txt)
                 pending_delete = None
 
             current_original_index += len(text)
@@ -57,15 +59,19 @@ def generate_edits_from_text(original_text: str, modified_text: str) -> List[Doc
                 edit = DocumentEdit(target_text=del_txt, new_text=text, comment="Diff: Replacement")
                 edit._match_start_index = idx
                 edits.append(edit)
+                last_edit_end = idx + len(del_txt)
                 pending_delete = None
             else:
                 # Pure Insertion
                 # Find Anchor context
-                anchor_start = max(0, current_original_index - 50)
+                # The anchor must not reach back into a previous edit or across a line break
+                anchor_start = max(last_edit_end, current_original_index - 50)
+                line_start = original_text.rfind("\n", 0, current_original_index) + 1
+                anchor_start = max(anchor_start, line_start)
                 anchor = original_text[anchor_start:current_original_index]
 
-                # Special Case: Start-of-Document with no anchor
-                if not anchor and current_original_index == 0:
+                # Special Case: Start of document / line / directly after another edit: no backward anchor
+                if not anchor:
                     # Check next equal for context (Forward Anchor)
                     if i + 1 < len(diffs) and diffs[i + 1][0] == 0:
                         next_text = diffs[i + 1][1]
@@ -83,6 +89,7 @@ def generate_edits_from_text(original_text: str, modified_text: str) -> List[Doc
                             )
                             edit._match_start_index = current_original_index
                             edits.append(edit)
+                            last_edit_end = current_original_index + len(anchor_target)
 
                             # We consumed the start of the next text conceptually?
                             # Actually, DMP will process the next Equal text normally.
@@ -97,8 +104,9 @@ def generate_edits_from_text(original_text: str, modified_text: str) -> List[Doc
 
                 # Standard Insertion: Target=Anchor, New=Anchor+Text
                 edit = DocumentEdit(target_text=anchor, new_text=anchor + text, comment="Diff: Text inserted")
-                edit._match_start_index = current_original_index
+                edit._match_start_index = anchor_start
                 edits.append(edit)
+                last_edit_end = current_original_index
 
     # Flush trailing delete
     if pending_delete:
